@@ -436,9 +436,13 @@ def evaluate(plan):
                                     else tb))
     http = plan['peer'].get('http', {})
     if status == 'exit:1':
+        # how long the shell waits for its LT server is not part of C14: any
+        # run that ends with the shell's own "error starting server" while the
+        # simulated server was still booting counts as "no answer"
         no_answer = (
             (plan['transport'] == 'my' and not http.get('initially_up')
-             and http.get('boot_delay', 0) >= 9.5)
+             and http.get('boot_delay', 0) > 0
+             and 'error starting server' in obs['stderr'])
             or (plan['transport'] in ('lt', 'textgears')
                 and http.get('remote_down')))
         if no_answer and '*** yalafi.shell: ' in obs['stderr']:
